@@ -11,5 +11,6 @@ CONSTANTS
   MaxPending = 3
   CleanupChecksGen = TRUE
   HumanChecksProfile = TRUE
+  HumanViaRecord = FALSE
 CONSTRAINT EmitHist
 CHECK_DEADLOCK FALSE
